@@ -107,7 +107,8 @@ def gen_cases(seed, tier):
 def _encoder(d):
     from pylatexenc.latexencode import UnicodeToLatexEncoder
     return UnicodeToLatexEncoder(conversion_rules=['unicode-xml'] if d['xml'] else ['defaults'],
-                                 replacement_latex_protection=d['prot'], unknown_char_policy=d['policy'])
+                                 replacement_latex_protection=d['prot'], unknown_char_policy=d['policy'],
+                                 unknown_char_warning=(len(d['s']) % 2 == 0))       # with and without the warning path
 
 
 def _parse(t):
